@@ -200,7 +200,7 @@ func runC10(c *kernel.Ctx) {
 			for _, p := range parked {
 				sites = append(sites, fmt.Sprintf("%s#%d", p.Site, p.Goid))
 			}
-			c.Logf("  parked %v", sites)
+			c.Note("parked %v", sites)
 		}
 		if t.Exhausted() {
 			break
